@@ -96,3 +96,15 @@ Fixpoint token (attempts : Z) (answers : list answer) : nat * nat * outcome :=
           else (1, 1, Ended)
       end
   end.
+
+(** * 4. The answer as the host gives it: an error or none, and possibly a handler (a channel on which a mode is or is
+    not queued).  [only_on_error] = the handler is looked at only when the answer carries an error (the sources:
+    Gen/Facts.v src_handler_read_only_on_error); false = it is obeyed whenever it is there. *)
+Inductive hmode := HSkip | HExit | HRetry (r : Z).
+Definition by_mode (m : hmode) : answer :=
+  match m with HSkip => AErrSkip | HExit => AErrExit | HRetry r => AErrRetry r end.
+Definition interpret (only_on_error : bool) (a : bool * option hmode) : answer :=
+  let '(err, h) := a in
+  if only_on_error
+  then (if err then match h with Some m => by_mode m | None => AErrNoHandler end else AOk)
+  else match h with Some m => by_mode m | None => if err then AErrNoHandler else AOk end.
